@@ -34,6 +34,8 @@ Datasets
 Function terms (evaluate to callables)
   ('fn', name)                       plain python callable (tagger or predicate)
   ('pa', fname, [T...], {kw: T})     PartialApplication
+  ('falift', fname, {kw: T})         FunctionApplication.lift(def f(a=<sig a>, b=<sig b>, c=<sig c>), **kw)
+  ('palift', fname, {kw: T})         PartialApplication.lift(def f(x, b=<sig b>, c=<sig c>), **kw)   (a function term)
   ('step', fname, {param: T})        @pipeline_step def fname(x, **params)
   ('pipe', [F...])                   Pipeline() + F1 + F2 ...
   ('helper', name, [T...])           labrea.functions.<name>(*args)
@@ -50,6 +52,7 @@ DS_DEFAULTS = {
     "options": None,  # pre-set options P
     "default_options": None,  # default options D
     "abstract": False,
+    "definition": None,  # a term: the dataset is defined from this Evaluatable instead of a body function (no params)
     "factory": "single",  # 'single': dataset(body, **kw) | 'chain': one factory call per keyword / effect, then the body
 }
 
@@ -124,7 +127,7 @@ def children(t):
         return [t[1]] + [x for _, x in t[2]]
     if k in ("fa", "pa"):
         return list(t[2]) + list(t[3].values())
-    if k == "step":
+    if k in ("step", "falift", "palift"):
         return list(t[2].values())
     if k == "helper":
         return [x for x in t[2] if isinstance(x, tuple)]
@@ -133,6 +136,8 @@ def children(t):
     if k == "ds":
         p = dsprops(t)
         out = list(p["params"])
+        if p["definition"] is not None:
+            out.append(p["definition"])
         if p["callback"] is not None:
             out.append(p["callback"])
         if p["dispatch"] is not None and p["dispatch"][0] != "optkey":
